@@ -283,7 +283,9 @@ def mutate_frames(ch, frames, start=0):
 def adversarial_block(ch):
     k = ch.weighted([(2, 'bad-index'), (2, 'truncated-int'), (2, 'truncated-string'), (2, 'huffman-garbage'),
                      (2, 'empty-name'), (2, 'non-utf8'), (1, 'table-size-big'), (1, 'table-size-mid'),
-                     (2, 'random'), (1, 'index-zero'), (2, 'upper'), (1, 'huge-string-len')])
+                     (2, 'random'), (1, 'index-zero'), (2, 'upper'), (1, 'huge-string-len'), (5, 'semantic-field')])
+    if k == 'semantic-field':
+        return semantic_field_block(ch)
     if k == 'bad-index':
         return indexed(ch.pick([62, 63, 100, 255, 70000]))
     if k == 'index-zero':
@@ -307,6 +309,42 @@ def adversarial_block(ch):
     if k == 'huge-string-len':
         return b'\x00\x7f\xff\xff\xff\x0f'
     return ch.bytes(ch.int(0, 24))
+
+
+SEMANTIC_NAMES = [b'content-length', b':status', b':method', b':authority', b'host', b'te', b'cookie', b':path',
+                  b':scheme', b':protocol', b'connection', b'transfer-encoding', b'content-length']
+SEMANTIC_VALUES = [b'', b'\xff', b'1\xff', b'\xe9', b'abc', b'-1', b'1e3', b' 12', b'12 ', b'9' * 30, b'+5', b'0x10',
+                   b'\x00', b'1,2', b'\xc3\xa9', b'\xd9\xa3', b'1_0', b'OK', b'2xx', b'1', b'100', b'099', b'trailers',
+                   b'\xf0\x9f', b'a=b; \xff']
+
+
+def semantic_field_block(ch):
+    """A well-formed block in which one field the library interprets (content-length, :status, ...) has a value it
+    cannot interpret; the rest of the list is a valid request or response."""
+    name = ch.pick(SEMANTIC_NAMES)
+    value = ch.pick(SEMANTIC_VALUES)
+    if ch.chance(40):
+        value = ch.bytes(ch.int(1, 4))
+    base = list(REQ if ch.bool() else [(b':status', b'200')])
+    if name.startswith(b':'):
+        base = [(n, v) for n, v in base if n != name or ch.chance(64)]
+        hs = [(name, value)] + base if ch.chance(200) else base + [(name, value)]
+    else:
+        hs = base + [(name, value)]
+        if ch.chance(48):
+            hs.append((name, ch.pick(SEMANTIC_VALUES)))
+    return raw_block(hs)
+
+
+def continuation_flood(ch, sid):
+    """HEADERS without END_HEADERS followed by many CONTINUATION frames with empty or tiny fragments."""
+    n = ch.pick([63, 64, 65, 66, 200, 1200, 3000])
+    blk = raw_block(REQ if ch.bool() else [(b':status', b'200')])
+    out = [wire.headers(sid, blk if ch.bool() else b'', end_stream=ch.bool(), end_headers=False)]
+    frag = ch.pick([b'', b'', b'\x82'])
+    out += [wire.continuation(sid, frag, end_headers=False)] * (n - 1)
+    out.append(wire.continuation(sid, frag, end_headers=ch.bool()))
+    return out
 
 
 def mutate_bytes(ch, data, start=0):
